@@ -98,6 +98,10 @@ func (store *memoryStore) SaveMessageAndIncrNextSenderMsgSeqNum(seqNum int, msg 
 }
 
 func (store *memoryStore) IterateMessages(beginSeqNum, endSeqNum int, cb func([]byte) error) error {
+	// Sequence numbers start at 1; do not walk a (possibly astronomically large) range below it.
+	if beginSeqNum < 1 {
+		beginSeqNum = 1
+	}
 	for seqNum := beginSeqNum; seqNum <= endSeqNum; seqNum++ {
 		if m, ok := store.messageMap[seqNum]; ok {
 			if err := cb(m); err != nil {
